@@ -56,7 +56,8 @@ STUBBED = ["socket (scripted outcomes), select, pinger, time, threading "
            "primitives (simkit)", "switch peers / controller peer (scripted)"]
 EXPECT_PROBES = ["side_ctl", "side_sw", "tx_script_part", "tx_script_eagain",
                  "tx_script_fatal", "deferred_used", "send_fast_used",
-                 "side_swt", "send_while_flushing"]
+                 "side_swt", "send_while_flushing",
+                 "exceptional_with_backlog"]
 
 
 def _script(r, n, fatal_ok=True):
@@ -109,6 +110,11 @@ def gen_plan(seed, tier):
     # the owner asks for an orderly shutdown of the sending side after some
     # message (what is queued by then must still go out, then SHUT_WR)
     cfg["shutdown_after"] = r.pick([None, None, None, 0, 1, 2, 4])
+    # select reports an exceptional condition on the worker's socket (urgent
+    # data) right after this message was queued, i.e. while it is unsent:
+    # for the IO loop that is the end of the connection
+    cfg["exc_after"] = Rng(mix(seed, "exc")).pick([None, None, None, None,
+                                                   0, 1, 3])
     for i in range(r.randint(2, 12)):
       steps.append({"n": r.pick([1, 8, 40, 200, 1500, 8192, 9000]),
                     "fast": r.chance(0.4),
@@ -181,12 +187,18 @@ def _drive_sw(sim, plan, known, hit):
   b.recv_all = True
   worker = loop.new_worker(socket=a)
   closes = []
-  worker.close_handler = lambda w: closes.append(sim.now)
+  at_close = []     # (send() calls, bytes accepted) when close was reported
+
+  def on_close(w):
+    closes.append(sim.now)
+    at_close.append((a.send_calls, len(a.accepted)))
+  worker.close_handler = on_close
   sim.settle()
   a.tx_script = [tuple(x) for x in cfg.get("script", [])]
   has_fatal = any(x[0] == "fatal" for x in a.tx_script)
   queued = b""
   shut = False
+  exc_hit = False
   shut_at = []      # bytes accepted when the worker called shutdown(SHUT_WR)
   orig_shutdown = a.shutdown
 
@@ -215,6 +227,10 @@ def _drive_sw(sim, plan, known, hit):
     data = _payload(i, st["n"])
     if worker.closed:
       break
+    exc_now = cfg.get("exc_after") == i and not has_fatal
+    if exc_now:
+      a.tx_script = []
+      a.tx_credit = 0         # the peer's window is closed: a backlog forms
     queued += data
     try:
       if st.get("fast"):
@@ -227,6 +243,19 @@ def _drive_sw(sim, plan, known, hit):
                       % ("send_fast" if st.get("fast") else "send", len(data),
                          type(e).__name__, e))
     check("after queueing message %d" % i)
+    if exc_now:
+      # the loop is now waiting for the socket to become writable again;
+      # it does, and select reports the exceptional condition with it
+      sim.settle()
+      if worker.send_buf and not worker.closed:
+        a.tx_credit = None
+        a.exc_flag = True
+        exc_hit = True
+        sim.probes["exceptional_with_backlog"] += 1
+        sim._poke()
+        sim.settle()
+        break
+      a.tx_credit = None
     if cfg.get("shutdown_after") == i and not has_fatal:
       worker.shutdown()
       sim.probes["shutdown_requested_with_backlog"] += int(
@@ -243,7 +272,12 @@ def _drive_sw(sim, plan, known, hit):
   check("at the end")
   if sim.task_deaths:
     raise Violation("sw/task-died", "%r" % (sim.task_deaths[:2],))
-  if a.tx_dead:
+  if at_close and (a.send_calls, len(a.accepted)) != at_close[0]:
+    raise Violation("sw/write-after-close", "the connection was reported "
+                    "closed after %d send() call(s) / %d accepted byte(s); "
+                    "at the end the socket had seen %d call(s) / %d byte(s)"
+                    % (at_close[0] + (a.send_calls, len(a.accepted))))
+  if a.tx_dead or exc_hit:
     if len(closes) != 1:
       raise Violation("sw/close-count", "after a fatal socket error the "
                       "worker's close handler ran %d time(s)" % len(closes))
